@@ -95,13 +95,56 @@ def check_mentions(tree, text):
     return None
 
 
-def sets_small(node):
-    from pane import errors as E
-    if isinstance(node, E.ProductErrorNode):
-        return len(node.missing) <= 1 and len(node.extra) <= 1 and all(sets_small(c) for c in node.children.values())
-    if isinstance(node, E.SumErrorNode):
-        return all(sets_small(c) for c in node.children)
-    return True
+HASHSEED_SCRIPT = r"""
+import sys, json, typing as t
+sys.path.insert(0, '/repo')
+import warnings; warnings.simplefilter('ignore')
+import pane
+class In(pane.PaneBase):
+    alpha: int; beta: int; gamma: int; delta: int = 0
+class Out(pane.PaneBase):
+    inner: In
+    tags: t.Dict[str, int] = {}
+class Tup(pane.PaneBase, in_format=('tuple', 'struct')):
+    x: int; y: int
+CASES = [
+    (In, {}), (In, {'zeta': 1, 'eta': 2, 'theta': 3, 'iota': 4}), (In, {'alpha': 'a', 'kappa': 1, 'lambda': 2, 'mu': 3}),
+    (Out, {'inner': {'omega': 1, 'psi': 2}}), (Out, {'inner': {'alpha': 1}, 'u': 1, 'v': 2, 'w': 3}),
+    (t.List[In], [{}, {'alpha': 1, 'p': 1, 'q': 2, 'r': 3}]),
+    (t.Union[In, Tup, int], {'x': 1, 'one': 1, 'two': 2, 'three': 3}),
+    (t.Dict[str, In], {'k': {'beta': 1, 'b2': 1, 'b3': 1}, 'l': {}}),
+    (t.TypedDict('TD', {'first': int, 'second': int, 'third': str}), {'fourth': 1, 'fifth': 2, 'sixth': 3}),
+]
+res = []
+for ty, v in CASES:
+    try:
+        pane.from_data(v, ty); res.append(None)
+    except pane.ConvertError as e:
+        res.append(str(e))
+print(json.dumps(res))
+"""
+
+
+def hashseed_determinism(out):
+    """the same failure rendered in interpreters started with different string-hash seeds: the text may not differ"""
+    import subprocess, json, os
+    texts = {}
+    for seed in ('1', '2', '3', '11'):
+        env = dict(os.environ, PYTHONHASHSEED=seed, PYTHONPATH='/repo')
+        r = subprocess.run(['/venv/bin/python', '-c', HASHSEED_SCRIPT], env=env, capture_output=True, text=True, timeout=120)
+        if r.returncode != 0:
+            out.violation('C08:hashseed-run-failed', f'rendering under PYTHONHASHSEED={seed} failed: {r.stderr[-300:]}', {'stderr': r.stderr[-1500:]})
+            return
+        texts[seed] = json.loads(r.stdout.strip().splitlines()[-1])
+    ref = texts['1']
+    for seed, ts in texts.items():
+        for i, (a, b) in enumerate(zip(ref, ts)):
+            out.evaluations += 1
+            if a != b:
+                out.violation('C08:render-depends-on-hash-seed',
+                              f'the message for one and the same failure (case {i}) differs between PYTHONHASHSEED=1 and PYTHONHASHSEED={seed}: {a[:160]!r} vs {b[:160]!r}',
+                              {'case_index': i, 'script': HASHSEED_SCRIPT, 'seed_a': '1', 'seed_b': seed, 'text_a': a, 'text_b': b})
+                return
 
 
 def monitor_factory(items):
@@ -130,7 +173,7 @@ def monitor_factory(items):
             r = f'monitor error {e!r}'
         if r:
             out.append((f'C08:{head}:incomplete', f'{r}; message: {text[:300]!r}', {'message': text}))
-        if sets_small(err.tree):
+        if True:
             try:
                 items.append((c, f'({tree_to_coq(err.tree)}, {coq_text(text)})'))
             except (Unsupported, RecursionError):
@@ -215,6 +258,7 @@ def run(ctx, out):
                                   {'value': f'10 ** {lim + 100}', 'position': label, 'type': repr(ty)})
             except Exception:
                 pass        # an escape is C04's business
+    hashseed_determinism(out)
     if any(f in ctx['failed_files'] for f in ('Model/Render.v', 'Run/AgreeRender.v')):
         out.oblige('corr_text', False, 'renderer model does not build')
         return
